@@ -71,16 +71,20 @@ def findPred : Nat → Heap → Nat → Nat → Except Err Nat
       | none => .ok p
       | some q => if q = c then .ok p else findPred f h c q
 
+/-- what one run of an iterator's loop hands back: the node returned to the caller, the heap, and the
+    value stored into `iter->curr` on the way out -/
+abbrev LoopRes := Except Err (Ptr × Heap × Ptr)
+
 /-- the `while (curr)` loop of `in_order_iterator`; `g` is the fuel of the inner loop -/
-def inOrderLoop (g : Nat) : Nat → Heap → Iter → Ptr → Res
-  | 0, _, _, _ => .error .fuel
-  | _ + 1, h, it, none => .ok (none, h, { it with curr := none })          -- iter->curr = NULL; return NULL
-  | f + 1, h, it, some c =>
+def inOrderLoop (g : Nat) : Nat → Heap → Ptr → LoopRes
+  | 0, _, _ => .error .fuel
+  | _ + 1, h, none => .ok (none, h, none)                                  -- iter->curr = NULL; return NULL
+  | f + 1, h, some c =>
     match h c with
     | none => .error (.dead c)
     | some n =>
       match n.left, n.tag with
-      | none, false => .ok (some c, h, { it with curr := n.right })        -- curr->left == NULL
+      | none, false => .ok (some c, h, n.right)                            -- curr->left == NULL: iter->curr = curr->right; return curr
       | _, true => .error .misaligned                                     -- prev = curr->left; prev->right
       | some l, false =>
         match findPred g h c l with
@@ -92,29 +96,33 @@ def inOrderLoop (g : Nat) : Nat → Heap → Iter → Ptr → Res
             match pn.right with
             | none =>
               -- prev->right = curr; curr = curr->left;   (a store to a `right` field cannot change `curr->left`)
-              inOrderLoop g f (setRight h prev (some c)) it (some l)
+              inOrderLoop g f (setRight h prev (some c)) (some l)
             | some _ =>
               -- prev->right = NULL; iter->curr = curr->right; return curr;
               match setRight h prev none c with
               | none => .error (.dead c)
-              | some n1 => .ok (some c, setRight h prev none, { it with curr := n1.right })
+              | some n1 => .ok (some c, setRight h prev none, n1.right)
 
-def inOrderIterator (g : Nat) (h : Heap) (it : Iter) : Res := inOrderLoop g g h it it.curr
+/-- `in_order_iterator`: `curr = iter->curr` on entry, `iter->curr = …` on every way out -/
+def inOrderIterator (g : Nat) (h : Heap) (it : Iter) : Res :=
+  match inOrderLoop g g h it.curr with
+  | .error e => .error e
+  | .ok (r, h1, c1) => .ok (r, h1, { it with curr := c1 })
 
 /-- `bintree_iterate_in_order` -/
 def iterateInOrder (g : Nat) (h : Heap) (it : Iter) (tree : Ptr) : Res :=
   inOrderIterator g h { it with next := .inOrder, curr := tree }
 
 /-- the `while (curr)` loop of `pre_order_iterator` -/
-def preOrderLoop (g : Nat) : Nat → Heap → Iter → Ptr → Res
-  | 0, _, _, _ => .error .fuel
-  | _ + 1, h, it, none => .ok (none, h, { it with curr := none })
-  | f + 1, h, it, some c =>
+def preOrderLoop (g : Nat) : Nat → Heap → Ptr → LoopRes
+  | 0, _, _ => .error .fuel
+  | _ + 1, h, none => .ok (none, h, none)
+  | f + 1, h, some c =>
     match h c with
     | none => .error (.dead c)
     | some n =>
       match n.left, n.tag with
-      | none, false => .ok (some c, h, { it with curr := n.right })
+      | none, false => .ok (some c, h, n.right)
       | _, true => .error .misaligned
       | some l, false =>
         match findPred g h c l with
@@ -127,12 +135,15 @@ def preOrderLoop (g : Nat) : Nat → Heap → Iter → Ptr → Res
               -- prev->right = NULL; curr = curr->right;
               match setRight h prev none c with
               | none => .error (.dead c)
-              | some n1 => preOrderLoop g f (setRight h prev none) it n1.right
+              | some n1 => preOrderLoop g f (setRight h prev none) n1.right
             else
               -- prev->right = curr; iter->curr = curr->left; return curr;
-              .ok (some c, setRight h prev (some c), { it with curr := some l })
+              .ok (some c, setRight h prev (some c), some l)
 
-def preOrderIterator (g : Nat) (h : Heap) (it : Iter) : Res := preOrderLoop g g h it it.curr
+def preOrderIterator (g : Nat) (h : Heap) (it : Iter) : Res :=
+  match preOrderLoop g g h it.curr with
+  | .error e => .error e
+  | .ok (r, h1, c1) => .ok (r, h1, { it with curr := c1 })
 
 /-- `bintree_iterate_pre_order` -/
 def iteratePreOrder (g : Nat) (h : Heap) (it : Iter) (tree : Ptr) : Res :=
@@ -148,30 +159,35 @@ def unvisited (h : Heap) : Ptr → Except Err Bool
     | none => .error (.dead p)
     | some n => .ok n.tag
 
-/-- the `while (tmp && is_visited(tmp) == false)` loop; arguments `tmp`, `prev` -/
-def postOrderLoop : Nat → Heap → Iter → Ptr → Ptr → Res
-  | 0, _, _, _, _ => .error .fuel
-  | _ + 1, h, it, none, _ => .ok (none, h, it)
-  | f + 1, h, it, some tmp, prev =>
+/-- the `while (tmp && is_visited(tmp) == false)` loop; arguments `tmp`, `prev`.  Hands back `none` for
+    `return NULL`, or the node that is unmarked and returned together with the value stored into `iter->parent` -/
+def postOrderLoop : Nat → Heap → Ptr → Ptr → Except Err (Option (Nat × Ptr) × Heap)
+  | 0, _, _, _ => .error .fuel
+  | _ + 1, h, none, _ => .ok (none, h)
+  | f + 1, h, some tmp, prev =>
     match h tmp with
     | none => .error (.dead tmp)
     | some n =>
-      if n.tag = false then .ok (none, h, it)                -- is_visited(tmp): the loop ends, return NULL
+      if n.tag = false then .ok (none, h)                    -- is_visited(tmp): the loop ends, return NULL
       else
         -- left = tmp->left & ~1
         match unvisited h n.left with
         | .error e => .error e
-        | .ok true => postOrderLoop f h it n.left (some tmp)
+        | .ok true => postOrderLoop f h n.left (some tmp)
         | .ok false =>
           match unvisited h n.right with
           | .error e => .error e
-          | .ok true => postOrderLoop f h it n.right (some tmp)
-          | .ok false =>
-            -- tmp->left &= ~1; if (tmp == iter->curr) iter->curr = NULL; iter->parent = prev; return tmp;
-            .ok (some tmp, setTag h tmp false,
-                 { it with curr := if it.curr = some tmp then none else it.curr, parent := prev })
+          | .ok true => postOrderLoop f h n.right (some tmp)
+          | .ok false => .ok (some (tmp, prev), setTag h tmp false)       -- tmp->left &= ~1; …; return tmp
 
-def postOrderIterator (g : Nat) (h : Heap) (it : Iter) : Res := postOrderLoop g h it it.curr none
+/-- `post_order_iterator`: on the way out with a node, `if (tmp == iter->curr) iter->curr = NULL;
+    iter->parent = prev;` -/
+def postOrderIterator (g : Nat) (h : Heap) (it : Iter) : Res :=
+  match postOrderLoop g h it.curr none with
+  | .error e => .error e
+  | .ok (none, h1) => .ok (none, h1, it)
+  | .ok (some (tmp, prev), h1) =>
+    .ok (some tmp, h1, { it with curr := if it.curr = some tmp then none else it.curr, parent := prev })
 
 /-! ### list iterators (bintree.c:174-235); `isList` is the caller's `is_list` callback -/
 
